@@ -10,6 +10,7 @@ macro_rules! conv_plain {
         #[kani::proof]
         #[kani::unwind(8)]
         #[kani::stub(alloc::fmt::format, fmt_stub)]
+        #[kani::stub(core::str::count::count_chars, naive_count)]
         fn $name() {
             let cs: [char; 3] = [kani::any(), kani::any(), kani::any()];
             let mut buf = [0u8; 12];
@@ -66,6 +67,7 @@ macro_rules! conv_milestone {
         #[kani::proof]
         #[kani::unwind(8)]
         #[kani::stub(alloc::fmt::format, fmt_stub)]
+        #[kani::stub(core::str::count::count_chars, naive_count)]
         fn $name() {
             let cs: [char; 3] = $cs;
             let mut buf = [0u8; 12];
@@ -111,6 +113,7 @@ macro_rules! ms_utf8byte {
         #[kani::proof]
         #[kani::unwind(8)]
         #[kani::stub(alloc::fmt::format, fmt_stub)]
+        #[kani::stub(core::str::count::count_chars, naive_count)]
         fn $name() {
             let cs: [char; 3] = [kani::any(), kani::any(), kani::any()];
             let mut buf = [0u8; 12];
@@ -140,6 +143,7 @@ macro_rules! ms_charpos {
         #[kani::proof]
         #[kani::unwind(8)]
         #[kani::stub(alloc::fmt::format, fmt_stub)]
+        #[kani::stub(core::str::count::count_chars, naive_count)]
         fn $name() {
             let cs: [char; 3] = $cs;
             let mut buf = [0u8; 12];
